@@ -435,6 +435,36 @@ def make_tz_case(rng):
     return ty
 
 
+# --------------------------------------------------------------------------- values that are class objects
+CLSOBJ_OPTS = dict(OPTS, leaves=gen.LEAVES_DEFAULT + ['bytes', 'none'] + ['clsobj'] * 9, allow_literal=False)
+
+
+def make_class_object_case(rng):
+    """positions annotated `type` / `Type[Any]` / `Any` (fields, container elements, mapping keys and values) whose values are
+    class objects: builtin and stdlib classes, a plain user class, and the classes of the module itself - dataclasses (JSONWizard
+    or plain, also the class being dumped), Enums, NamedTuples - in any order, next to instances of the same classes"""
+    o = gen.Opts(**CLSOBJ_OPTS)
+    ty = gen.gen_cls(rng, rng.choice([0, 1, 1, 2]), o)
+    if not _mentions(ty, 'clsobj'):
+        used = {f['name'] for f in ty['info']['fields']}
+        fname = gen.field_name(rng, used)
+        idx = next((i for i, f in enumerate(ty['info']['fields']) if f.get('dflt') is not None), len(ty['info']['fields']))
+        ty['info']['fields'].insert(idx, {'name': fname})
+        c = T('clsobj', sp=rng.choice(['type', 'Type', 'Any']))
+        ty['ftys'].append([fname, rng.choice(NEST_SHAPES[:4] + [lambda c_: T('vtuple', c_)])(c)])
+    return ty
+
+
+def _mentions(t, kind):
+    if t['k'] == kind:
+        return True
+    if t['k'] == 'cls':
+        return any(_mentions(ft, kind) for _n, ft in t['ftys'])
+    if t['k'] in ('namedtuple', 'typeddict'):
+        return any(_mentions(f[1], kind) for f in t['fields'])
+    return any(_mentions(x, kind) for x in t.get('a', []))
+
+
 def run_case(ctx, i, ty, rng, reqs, pend, tz=None, pre=(), kind='dump', first=None):
     """one case = (class model, history, instance, local time zone `tz`); history = stand-alone dumps of the nested classes
     `pre`, or (`first`, see harness/failfirst.py) uses of the class that come before a class it names is defined"""
@@ -521,7 +551,9 @@ def _run_case(ctx, i, ty, rng, reqs, pend, tz, pre, kind, first=None):
                              detail=dict(src=built.source))
                 if not ref.same_typed(x, before):
                     ctx.fail('dump:side-effect', case, 'the instance changed during asdict', detail=dict(src=built.source))
-        # ---- model
+        # ---- model (class objects are outside the value grammar of the Lean model: oracle only)
+        if kind == 'class-objects':
+            return
         st = model.StdTables()
         st.add_py(x)
         reqs.append({'op': 'dump', 'inst': model.enc_py(x, built), 'std': st.build(), 'exclude': None, 'skip_defaults': None})
@@ -572,7 +604,8 @@ def run(ctx: C.Ctx):
     gen.CATCH_ALL_VALUES = catch_all_values
     _check_full_key_funcs()
     for fam, count in (('catch-all', ctx.quick(450, 6000)), ('standalone-first', ctx.quick(450, 6000)), ('local-tz', ctx.quick(350, 5000)),
-                       ('key-names', ctx.quick(400, 5000)), ('failed-first', ctx.quick(400, 5000))):
+                       ('key-names', ctx.quick(400, 5000)), ('failed-first', ctx.quick(400, 5000)),
+                       ('class-objects', ctx.quick(400, 5000))):
         for j in range(count):
             idx = base + j
             if ctx.done(idx):
@@ -587,6 +620,8 @@ def run(ctx: C.Ctx):
                 run_case(ctx, idx, ty, crng, reqs, pend, kind=fam, first=spec)
             elif fam == 'key-names':
                 run_case(ctx, idx, make_key_name_case(crng), crng, reqs, pend, kind=fam)
+            elif fam == 'class-objects':
+                run_case(ctx, idx, make_class_object_case(crng), crng, reqs, pend, kind=fam)
             elif fam == 'standalone-first':
                 ty, pre = make_history_case(crng)
                 run_case(ctx, idx, ty, crng, reqs, pend, tz=TZS[j % len(TZS)] if j % 4 == 3 else None, pre=pre, kind=fam)
